@@ -328,3 +328,78 @@ extract_contract = Contract(
 )
 
 CONTRACTS += [extract_contract, extract_rec, _fold_callee]
+
+# =================================================================================================
+# ExpressionLowerer._try_fold_wire_merge: a wire merge of anonymous constants is folded to ONE constant whose
+# value must be what the wire would carry at run time — the int32 wrap-around sum (a network sum wraps).
+# (Lists of 2 and 3 sources: bounded list length, symbolic values.)
+# =================================================================================================
+from pyvc.values import SObj as _SObj, fresh_name as _fresh  # noqa: E402
+from pyvc.ghost import ghost as _ghost  # noqa: E402
+
+EL_ = "dsl_compiler/src/lowering/expression_lowerer.py::ExpressionLowerer."
+IRB_ = "dsl_compiler/src/ir/builder.py::IRBuilder."
+FOLDED = {}
+_CONSTNODE = ty.TOpt(ty.TObj("IRNode", only=("IRConst", "IRArith"), ftypes=(
+    ("value", ty.Int), ("debug_metadata", ty.TRecord((("user_declared", ty.Bool),))), ("debug_label", ty.TOpt(ty.Str)))))
+_NODES = {}
+
+
+def _get_op_effect(ex, a):
+    key = a.node_id
+    for k, v in _NODES.items():
+        if k is key or (ops.is_sym(k) and ops.is_sym(key) and k.eq(key)):
+            return v
+    node = ex.mk(_CONSTNODE, _fresh("node"), register=True)
+    _NODES[key] = node
+    return node
+
+
+get_op = Contract(qualname=IRB_ + "get_operation", params={"self": ty.TOpaque("b"), "node_id": ty.TOpaque("id")}, effect=_get_op_effect, verify=False,
+                  note="dictionary lookup: one node per id")
+
+
+def _const_effect(ex, a):
+    FOLDED["value"] = a.value
+    FOLDED["type"] = a.signal_type
+    r = _SObj(["SignalRef"], _fresh("folded"), lazy=False)
+    r._fields["signal_type"] = a.signal_type
+    r._fields["source_id"] = z3.String(_fresh("folded_id"))
+    return r
+
+
+const_ctor = Contract(qualname=IRB_ + "const", params={"self": ty.TOpaque("b"), "signal_type": ty.TOpaque("t"), "value": ty.TOpaque("v"), "source_ast": ty.TOpaque("a")},
+                      defaults={"source_ast": None}, effect=_const_effect, verify=False, note="creates the folded constant (value recorded)")
+
+
+def _merge_fold_post(n):
+    def post(a, res):
+        if res is None:
+            return True
+        vals = [_NODES[k].value for k in _NODES if _NODES[k] is not None][:n]
+        srcs = list(a.sources)
+        nodes = []
+        for s in srcs:
+            for k, v in _NODES.items():
+                if k is s.source_id:
+                    nodes.append(v)
+        if len(nodes) != n or any(x is None for x in nodes):
+            return False
+        total = sum(x.value for x in nodes)
+        return And(ops.eq(FOLDED.get("value"), A.wrap32(total)), FOLDED.get("type") is a.output_type)
+    return post
+
+
+_SRC = ty.TObj("SignalRef", only=("SignalRef",))
+for _n in (2, 3):
+    CONTRACTS.append(Contract(
+        qualname=EL_ + "_try_fold_wire_merge",
+        params={"self": ty.TObj("ExpressionLowerer", only=("ExpressionLowerer",)), "sources": ty.TTuple(tuple(_SRC for _ in range(_n))),
+                "output_type": ty.Str, "source_ast": ty.TOpaque("ast")},
+        requires=[("(reset capture)", lambda a: (FOLDED.clear(), _NODES.clear()) and True),
+                  ("member values are int32", lambda a: True)],
+        ensures=[("a folded merge carries the int32 wrap-around sum of its members", _merge_fold_post(_n))],
+        uses={"IRBuilder.get_operation": get_op, "IRBuilder.const": const_ctor, "opaque.info": "skip"},
+        dynamic_types={"self": {"ir_builder": ty.TObj("IRBuilder", only=("IRBuilder",)), "parent": ty.TOpaque("parent"), "diagnostics": ty.TOpaque("diag")}},
+        properties=("C11", "C01"), min_obligations=1, no_replay=True, note=f"{_n} sources (bounded list length)"))
+CONTRACTS += [get_op, const_ctor]
